@@ -23,6 +23,9 @@ by finite evaluation of expressions extracted from the type-checked program (no 
   WIRE-loop  the ripple loops zip x with y padded by ZERO (unequal operand widths), narrow the context with the
              enumerate index, thread the caller's carry, and push each gadget output in order.
 
+  WIRE-aggregate the pairwise tree reduction adds with carry growth (integer_add, carry pushed as the new top bit) exactly
+             while the operands are narrower than the output width (`len < OV::BITS`) and with integer_sat_add from
+             then on; a pair is (a, b) = the two popped chunk elements; a single leftover element is passed through.
 Not decided: share conversion, the PRF, integer multiplication, aggregation trees, vectorised layouts, the DZKP-carrying
 multiply beyond its reuse of the same multiplication_protocol (C03/C04 cover its proof inputs).
 """
@@ -146,6 +149,7 @@ def run(ctx):
     known_value(ctx, facts)
     reshare(ctx, facts)
     wiring(ctx, facts)
+    aggregate(ctx, facts)
     ctx.assume("the secure multiplication returns a sharing of the product of its operands (POLY decides this for the semi-honest protocol at the level of the share algebra); `+`, `-`, `!` on shares are the share-wise field operations")
     ctx.assume("share conversion, PRF evaluation, integer multiplication and aggregation are not decided")
 
@@ -695,3 +699,55 @@ def reshare(ctx, facts):
     # the target's new shares must be fresh randomness only (it learns nothing, contributes nothing)
     okt = all(all(v.startswith("p") for m in p for v in m) for p in sh["T"])
     ctx.ob("POLY", "reshare:target-uses-only-prss", okt, "the target's new shares are PRSS values" if okt else "the target helper's new shares depend on its old shares", site_of(b, arm_of["T"][0]))
+
+
+# ---------------------------------------------------------------------------------------------
+def aggregate(ctx, facts):
+    ctx.rule("WIRE-aggregate: in aggregate_values' per-pair future the branch on `a.len() < OV::BITS` selects integer_add + push(carry) on the true edge and integer_sat_add on the false edge; both take the two popped elements; next level has ceil(n/2) rows")
+    body = None
+    for b in facts.tree("protocol::ipa_prf::aggregation::aggregate_values"):
+        if any((F.callee(t)[0] or "").endswith("addition_sequential::integer_sat_add") for bb, t in b.calls()):
+            body = b
+    if body is None:
+        ctx.missing("WIRE-aggregate", "per-pair future of aggregate_values")
+        return
+    b = body
+    ctx.count(bodies=1)
+    dom = b.dominators()
+    add = [(bb, t) for bb, t in b.calls() if (F.callee(t)[0] or "").endswith("addition_sequential::integer_add")]
+    sat = [(bb, t) for bb, t in b.calls() if (F.callee(t)[0] or "").endswith("addition_sequential::integer_sat_add")]
+    push = [(bb, t) for bb, t in b.calls() if (F.callee(t)[0] or "").endswith("BitDecomposed::<S>::push")]
+    guard = None
+    for tgt, f in flow.edge_guards(b):
+        op, l, r = f
+        if op in ("Lt", "Ge", "Le", "Gt") and l[0] == "call" and l[1].endswith("BitDecomposed::<S>::len") and r is not None and "::BITS" in str(r):
+            guard = guard or {}
+            guard[op] = tgt
+    if len(add) != 1 or len(sat) != 1 or guard is None:
+        ctx.missing("WIRE-aggregate", f"integer_add / integer_sat_add / width test (found {len(add)}/{len(sat)}/{'yes' if guard else 'no'})")
+        return
+    ok = "Lt" in guard and "Ge" in guard and flow.dominates(dom, guard["Lt"], add[0][0]) and flow.dominates(dom, guard["Ge"], sat[0][0])
+    ctx.ob("WIRE-aggregate", "grow-while-narrower-than-output", ok, "len < OV::BITS => add with carry growth; otherwise saturating add" if ok else "the switch between carry-growing and saturating addition is not `len < OV::BITS` (with `<=` the sum grows one bit past the output width and the final resize drops the overflow instead of saturating; with a smaller bound the sum saturates too early)", site_of(b, add[0][0]))
+    okp = False
+    if push:
+        pe = str(flow.expr_of(b, push[0][1]["args"][1], max_depth=40))
+        re_ = str(flow.expr_of(b, push[0][1]["args"][0], max_depth=40))
+        okp = "integer_add" in pe and "integer_add" in re_ and pe.rstrip(")").endswith("1") and flow.dominates(dom, add[0][0], push[0][0])
+    ctx.ob("WIRE-aggregate", "carry-becomes-top-bit", okp, "sum.push(carry)" if okp else "the carry of the growing addition is not appended as the new most significant bit (sums wrap instead of growing)", site_of(b, push[0][0]) if push else site_of(b))
+    for nm, (cbb, ct) in (("integer_add", add[0]), ("integer_sat_add", sat[0])):
+        a2, a3 = str(flow.expr_of(b, ct["args"][2], max_depth=30)), str(flow.expr_of(b, ct["args"][3], max_depth=30))
+        oka = "Vec::<T, A>::pop" in a2 and "Vec::<T, A>::pop" in a3 and F.op_local(ct["args"][2]) != F.op_local(ct["args"][3])
+        # the two operands must be two different pops
+        la, lb = malsec._base_locals(b, ct["args"][2]), malsec._base_locals(b, ct["args"][3])
+        oka = oka and la != lb
+        ctx.ob("WIRE-aggregate", f"{nm}:operands-are-the-pair", oka, "adds the two elements of the chunk" if oka else f"{nm} does not add the two distinct popped elements of the pair (an element added to itself or dropped)", site_of(b, cbb))
+    outer = None
+    for ob_ in facts.tree("protocol::ipa_prf::aggregation::aggregate_values"):
+        if any((F.callee(t)[0] or "").endswith("::div_ceil") for bb, t in ob_.calls()):
+            outer = ob_
+    okn = False
+    if outer is not None:
+        for bb, t in outer.calls():
+            if (F.callee(t)[0] or "").endswith("::div_ceil"):
+                okn = flow.strip_casts(flow.expr_of(outer, t["args"][1])) == ("const", 2)
+    ctx.ob("WIRE-aggregate", "next-level-ceil-half", okn, "next level has ceil(n / 2) rows" if okn else "the number of rows of the next level is not ceil(n/2): an odd leftover row is dropped", site_of(outer) if outer is not None else site_of(b))
